@@ -107,8 +107,12 @@ def run_mpo(case):
     U = basis_change(ch)
     res = []
 
+    # ONE prefactor array shared by every TermList of the case (as a user looping over terms with a fixed coupling
+    # array would do): building a TermList / MPO must not write into it
+    g = np.array([1.0])
+
     def dense_of(term):
-        tl = TermList([[(str(a), int(b)) for a, b in term]], [1.0])
+        tl = TermList([[(str(a), int(b)) for a, b in term]], g)
         H = MPOGraph.from_term_list(tl, ch.sites, 'finite', unit_cell_width=L).build_MPO()
         return U @ mpo_dense(H) @ U.T
 
@@ -120,6 +124,7 @@ def run_mpo(case):
             want = orc.term_op(ch.docs, term)
             r['diff'] = float(np.max(np.abs(D - want)))
             r['norm'] = float(np.max(np.abs(want)))
+            r['g'] = float(g[0])
             if len(term) == 2 and case.get('anticomm'):
                 (a, i), (b, j) = term
                 D2 = dense_of([(b, j), (a, i)])
